@@ -225,6 +225,24 @@ def run_pp(cfg, prefix, scratch):
 
     try:
         w.script_done = False
+        if cfg.get('monitor_fs'):
+            def mon(sch):
+                if getattr(w, 'fs_violation', None):
+                    return
+                for i, dl in enumerate(cfg['downloads']):
+                    path = os.path.join(scratch.path, f'dst{i}')
+                    try:
+                        with open(path, 'rb') as fh:
+                            cur = fh.read()
+                    except FileNotFoundError:
+                        cur = None
+                    pre = dl.get('pre')
+                    pre_b = pre.encode() if pre is not None else None
+                    exp = w.expected.get(i)
+                    if cur != pre_b and exp is not None and cur != exp:
+                        w.fs_violation = (f'at step {sch.step} the destination of download {i} holds {cur!r} '
+                                          f'(previous {pre_b!r}, object {exp!r})')
+            s.on_point = mon
         s.run(main)
     finally:
         detsched.uninstall_shared_fields(pp.TransferState, ('_exception', '_jobs_to_complete'))
@@ -283,6 +301,7 @@ def judge(w):
                 pre_b = pre.encode() if pre is not None else None
                 renamed = any(e[2] == 'fs.renamed' and e[3].get('to') == f'dst{i}' for e in log)
                 if cur != pre_b and not (renamed and cur == w.expected[i]):
+                    out.append(('C06:ppool:destination-changed-after-failure', f'download {i} failed ({oc}) but destination holds {cur!r} (previous {pre_b!r})'))
                     out.append(('C19:destination-changed-on-failure', f'download {i} failed ({oc}) but destination holds {cur!r} (previous {pre_b!r})'))
         if kbd_in_with:
             oc = w.outcomes.get(i)
@@ -294,10 +313,13 @@ def judge(w):
                     out.append(('C19:ctrlc-did-not-cancel', f'download {i} succeeded although it was unfinished when Ctrl-C left the with-block'))
             elif oc and not isinstance(oc[1], CancelledError):
                 out.append(('C19:ctrlc-wrong-error', f'download {i}: {oc[1]!r}'))
+    if getattr(w, 'fs_violation', None):
+        out.append(('C06:ppool:partial-content-visible', w.fs_violation))
     # nothing left behind at the end
     left = [x for x in w.listing if '.' in x]
     if left:
         out.append(('C19:temp-file-left', f'{left} after all downloads finished'))
+        out.append(('C06:ppool:temp-file-left', f'{left} after all downloads finished'))
     return out
 
 
@@ -313,7 +335,7 @@ def _sd():
     return _SD
 
 
-def pp_exec(cfg, prefix):
+def pp_exec(cfg, prefix, want='C19'):
     w = run_pp(cfg, prefix, _sd())
     s = w.sched
     x = explore.Exec()
@@ -324,6 +346,8 @@ def pp_exec(cfg, prefix):
     x.extra['max_threads'] = s.max_threads
     seen = set()
     for sig, msg in judge(w):
+        if not sig.startswith(want):
+            continue
         if sig not in seen:
             seen.add(sig)
             x.violations.append({'sig': sig, 'msg': msg})
@@ -340,7 +364,7 @@ def pp_exec(cfg, prefix):
 
 def _job(job):
     cfg = job['cfg']
-    st = explore.explore(lambda p: pp_exec(cfg, p), job['bound'], forced_cost=job.get('forced_cost', 1),
+    st = explore.explore(lambda p: pp_exec(cfg, p, job.get('want', 'C19')), job['bound'], forced_cost=job.get('forced_cost', 1),
                          max_execs=job.get('max_execs'), root_prefix=job.get('root_prefix', ()),
                          root_cost=job.get('root_cost'), root_only=job.get('root_only', False))
     if job.get('root_only'):
@@ -348,7 +372,7 @@ def _job(job):
         st.root_exec = None
         return {'name': job['name'], 'stats': st, 'violations': [], 'kids': kids}
     viol = [{'sig': v['sig'], 'msg': v['msg'] + f' | cfg={cfg} choices={ch}',
-             'replay': {'kind': 'pp', 'cfg': cfg, 'choices': ch}} for ch, v in st.violations]
+             'replay': {'kind': 'pp', 'cfg': cfg, 'choices': ch, 'want': job.get('want', 'C19')}} for ch, v in st.violations]
     return {'name': job['name'], 'stats': st, 'violations': viol}
 
 
@@ -378,9 +402,42 @@ def jobs(tier):
 
 
 def replay(data):
-    x = pp_exec(data['cfg'], data['choices'])
+    x = pp_exec(data['cfg'], data['choices'], data.get('want', 'C19'))
     return {'outcome': x.outcome, 'detail': x.detail, 'violations': x.violations, 'sample': x.sample,
             'digest': repr(x.decisions) + str(x.signature)}
+
+
+def c06_jobs(tier):
+    q = tier == 'quick'
+    FS = ['s3:', 'stream:retryable', 'stream:fatal', 'fs:allocate', 'fs:rename', 'fs:open']
+    out = []
+    for workers, dls in ((2, [dict(size=5, pre='OLD')]), (2, [dict(size=5)]), (1, [dict(size=3, pre='OLD')])):
+        base = dict(workers=workers, downloads=dls, t=4, c=2, monitor_fs=True)
+        name = f'ppool w={workers} {dls}'
+        out.append({'name': f'fault {name}', 'cfg': dict(base, faults={'sites': FS}), 'want': 'C06',
+                    'bound': {'sched': 1, 'env': 1} if q else {'sched': 2, 'env': 1}})
+        out.append({'name': f'cancel {name}', 'cfg': dict(base, inject=[{'kind': 'cancel', 'target': 0}]), 'want': 'C06',
+                    'bound': {'inject': 1, 'sched': 1} if q else {'inject': 1, 'sched': 2}})
+    return out
+
+
+def run_job_list(js, seed, tier):
+    for j in js:
+        j['cfg']['seed'] = seed
+        j.setdefault('max_execs', 300000 if tier == 'quick' else 3000000)
+    roots = explore.run_jobs(_job, [dict(j, root_only=True) for j in js])
+    allj = []
+    for j, r in zip(js, roots):
+        allj.append(dict(j, bound={'sched': 0, 'env': 0, 'inject': 0}, _group=j['name']))
+        for pre, cost in r['kids']:
+            allj.append(dict(j, root_prefix=pre, root_cost=cost, _group=j['name']))
+    res = explore.run_jobs(_job, allj)
+    tot = explore.Stats()
+    viol = []
+    for r in res:
+        tot.merge(r['stats'])
+        viol.extend(r['violations'])
+    return tot, viol
 
 
 def run(tier, seed):
